@@ -5,6 +5,9 @@ as patch.diff, demo.py and meta.json."""
 import json, os, re, shutil, sys
 VERIF = os.path.dirname(os.path.dirname(os.path.abspath(__file__)))
 root, cdir, stj = sys.argv[1:4]
+offset = int(sys.argv[4]) if len(sys.argv) > 4 else 0
+round_label = sys.argv[5] if len(sys.argv) > 5 else "round 1"
+first_run = json.load(open(sys.argv[6])) if len(sys.argv) > 6 else {}
 st = json.load(open(stj))
 kept, dropped = [], []
 for pid in sorted(os.listdir(root)):
@@ -21,7 +24,7 @@ for pid in sorted(os.listdir(root)):
             dropped.append((sid, txt.strip().replace("\n", " | ")[:300]))
             continue
         meta = json.load(open(os.path.join(root, pid, f"seed{k}_meta.json")))
-        d = os.path.join(VERIF, "seeded", sid)
+        d = os.path.join(VERIF, "seeded", f"{pid}-{k + offset}")
         os.makedirs(d, exist_ok=True)
         shutil.copy(pf, os.path.join(d, "patch.diff"))
         shutil.copy(os.path.join(root, pid, f"seed{k}_demo.py"), os.path.join(d, "demo.py"))
@@ -31,6 +34,7 @@ for pid in sorted(os.listdir(root)):
             "breaks": meta.get("summary", ""),
             "construct": meta.get("function", ""),
             "needs_to_manifest": meta.get("needs", ""),
+            "round": round_label,
             "author": "fresh sub-agent given only the property text and its own scratch worktree of /repo",
             "agent_ran": meta.get("ran", ""),
             "confirmed_by_me": {
@@ -41,6 +45,7 @@ for pid in sorted(os.listdir(root)):
             "checks": {
                 "how": "tools/seedtest.py: patch applied to a scratch copy of /repo/pint, every rule pack run with PINT_REPO=<copy>",
                 "status": res.get("status"),
+                "first_run_before_strengthening": (lambda fr: None if fr is None else [h["check"] for h in fr.get("hits", []) if not h["reports"][0].startswith("ANALYSIS") and not (h["check"] == "C20" and all("degree_Reaumur" in x for x in h["reports"]))])(first_run.get(sid)),
                 "caught_by": [h["check"] for h in res.get("hits", []) if not h["reports"][0].startswith("ANALYSIS")],
                 "reports": {h["check"]: h["reports"][:2] for h in res.get("hits", [])},
             },
